@@ -647,6 +647,14 @@ val log : z list -> unit mW
 
 val run_callback : nat -> ent -> unit mW
 
+val fire_loop :
+  (nat -> ent -> unit mW) -> (oobj -> bool) -> ent -> nat list -> bool ->
+  bool mW
+
+val fire_with :
+  (nat -> ent -> unit mW) -> nat -> (agg -> bool) -> (oobj -> bool) -> ent ->
+  bool -> bool mW
+
 val fire : nat -> (agg -> bool) -> (oobj -> bool) -> ent -> bool -> bool mW
 
 val p_with : mask0 -> oobj -> bool
